@@ -128,7 +128,8 @@ def _boundary(job, scratch):
     snapdir = os.path.join(scratch, "bsnaps")
     os.makedirs(snapdir, exist_ok=True)
     mon = _Boundary(snapdir)
-    rig, info = run_case(spec, cdir, [mon])
+    from vf.monitors import LockMonitor
+    rig, info = run_case(spec, cdir, [mon, LockMonitor()])
     if rig.violations or any(o not in ("done", "killed")
                              for o in info["outcomes"]):
         for v in rig.violations:
@@ -189,7 +190,11 @@ def work(job, scratch):
     cdir = os.path.join(scratch, "base")
     snapdir = os.path.join(scratch, "snaps")
     rec = Recorder(cdir, snapdir)
-    rig, info = run_case(spec, cdir, [rec])
+    # the in-flight record of every restart file written must be the jobs
+    # really in flight (a crash state can only be judged against what the
+    # restart file says, so the file itself is checked while it is written)
+    from vf.monitors import LockMonitor
+    rig, info = run_case(spec, cdir, [rec, LockMonitor()])
     rec.armed = False
     rec.final_snapshot()
     if rig.violations or any(o not in ("done", "killed")
